@@ -24,6 +24,7 @@ import (
 	"sort"
 	"strings"
 	"sync"
+	"sync/atomic"
 	"time"
 
 	"verif/harness/vh"
@@ -244,6 +245,7 @@ type pool struct {
 	jobs     chan job
 	results  chan jobResult
 	wg       sync.WaitGroup
+	stop     atomic.Bool // enough failures seen: remaining jobs are skipped
 }
 
 func newPool(bin string, n, settleUS int) *pool {
@@ -259,6 +261,10 @@ func (p *pool) run() {
 	defer p.wg.Done()
 	var w *worker
 	for j := range p.jobs {
+		if p.stop.Load() {
+			p.results <- jobResult{job: j, status: "skipped"}
+			continue
+		}
 		if w == nil {
 			var err error
 			w, err = startWorker(p.bin, p.settleUS, nil)
@@ -295,12 +301,39 @@ func tail(s string, n int) string {
 // ------------------------------------------------------------------ runner
 
 type runner struct {
-	c       *vh.Ctx
-	m       *vh.Model
-	pool    *pool
-	nextID  int
-	pending int
+	c        *vh.Ctx
+	m        *vh.Model
+	pool     *pool
+	nextID   int
+	pending  int
+	failures int
+	found    []finding // buffered so that the shortest, most deterministic cases are reported first
 }
+
+type finding struct {
+	vio       bool
+	sig, what string
+	cs        Case
+	rank      int
+}
+
+// flush reports the buffered findings: failures inside the forced part of a schedule first, shorter first.
+func (r *runner) flush() {
+	sort.SliceStable(r.found, func(i, j int) bool { return r.found[i].rank < r.found[j].rank })
+	for _, f := range r.found {
+		if f.vio {
+			r.c.Violation(f.sig, f.what, f.cs)
+		} else {
+			r.c.Mismatch(f.cs, f.what, f.cs.Sched, "forced schedule: implementation and Model.Chan differ")
+		}
+	}
+	r.found = nil
+}
+
+// after this many failing schedules the run stops early (every further one could cost a watchdog period)
+const maxFailures = 40
+
+func (r *runner) stopped() bool { return r.failures >= maxFailures }
 
 func (r *runner) caseOf(j job) Case {
 	return Case{Kind: "sched", Cap: j.cfg.Cap, Progs: j.cfg.progs(), Acts: actsOf(j.sched), Sched: j.sched}
@@ -308,6 +341,17 @@ func (r *runner) caseOf(j job) Case {
 
 func (r *runner) account(res jobResult) {
 	c := r.c
+	if res.status == "skipped" {
+		c.Hit("skipped-after-failures")
+		return
+	}
+	if res.crashed || (res.status != "ok" && res.status != "div") {
+		r.failures++
+		if r.stopped() && !r.pool.stop.Load() {
+			r.pool.stop.Store(true)
+			c.Note("stopped early after %d failing schedules", r.failures)
+		}
+	}
 	cs := r.caseOf(res.job)
 	threads := map[string]bool{}
 	for _, a := range strings.Split(cs.Acts, ",") {
@@ -333,15 +377,19 @@ func (r *runner) account(res jobResult) {
 	c.SampleSome(cs, 997)
 	switch {
 	case res.crashed:
-		c.Violation("crash:"+crashKind(res.stderr+res.detail), fmt.Sprintf("the child process died while this schedule was forced on the real Channel: %s | %s", res.detail, firstLines(res.stderr, 6)), cs)
+		r.found = append(r.found, finding{true, "crash:" + crashKind(res.stderr+res.detail), fmt.Sprintf("the child process died while this schedule was forced on the real Channel: %s | %s", res.detail, firstLines(res.stderr, 6)), cs, len(cs.Acts)})
 	case res.status == "ok":
 		c.Res.Traces++
 	case res.status == "div":
 		c.Hit("select-race-not-forced")
 	case res.status == "vio":
-		c.Violation(res.sig, res.detail, cs)
+		rank := len(cs.Acts)
+		if strings.HasPrefix(res.detail, "cleanup") || !strings.Contains(cs.Progs, "c") {
+			rank += 1000 // happened while the harness's own Close released the threads: less deterministic to replay
+		}
+		r.found = append(r.found, finding{true, res.sig, res.detail, cs, rank})
 	default:
-		c.Mismatch(cs, res.detail, cs.Sched, "forced schedule: implementation and Model.Chan differ")
+		r.found = append(r.found, finding{false, "", res.detail, cs, len(cs.Acts)})
 	}
 }
 
@@ -386,7 +434,7 @@ func (r *runner) drain(block bool) {
 
 func (r *runner) submit(cfg config, scheds []string, mode string) {
 	for _, s := range scheds {
-		if s == "" {
+		if s == "" || r.stopped() {
 			continue
 		}
 		tries := 1
@@ -407,6 +455,38 @@ func (r *runner) submit(cfg config, scheds []string, mode string) {
 		}
 		r.drain(false)
 	}
+}
+
+// corpus: minimised past failures (corpus/C09/*.json, action lists) are forced first.
+func (r *runner) corpus() {
+	wd, _ := os.Getwd()
+	files, _ := filepath.Glob(filepath.Join(wd, "..", "corpus", "C09", "*.json"))
+	sort.Strings(files)
+	for _, f := range files {
+		b, err := os.ReadFile(f)
+		var cs Case
+		if err != nil || json.Unmarshal(b, &cs) != nil || cs.Kind != "sched" {
+			r.c.Note("corpus file %s unreadable", filepath.Base(f))
+			continue
+		}
+		resp, err := r.m.Ask(fmt.Sprintf("run\t%d\t%s\t%s", cs.Cap, cs.Progs, cs.Acts))
+		if err != nil || !strings.HasPrefix(resp, "n=1") {
+			r.c.Mismatch(cs, "", resp, "model driver rejected corpus case "+filepath.Base(f))
+			continue
+		}
+		r.submit(config{Cap: cs.Cap, Progs: strings.Split(cs.Progs, "|")}, []string{strings.SplitN(resp, ";", 2)[1]}, "corpus")
+	}
+}
+
+// probes: for every reachable state of cfg and every thread the model says is blocked there, force a
+// path to the state, let that thread go and require that it does not get anywhere.
+func (r *runner) probes(cfg config, max int) {
+	scheds, _, err := r.ask(fmt.Sprintf("enum\t%d\t%s\t%d\tprobes", cfg.Cap, cfg.progs(), max))
+	if err != nil {
+		r.c.Mismatch(cfg, "", "", "model driver failed: "+err.Error())
+		return
+	}
+	r.submit(cfg, scheds, "probes")
 }
 
 // ask the model for schedules; returns (schedules, complete)
@@ -441,10 +521,11 @@ func Run(c *vh.Ctx) {
 			workers = 16
 		}
 		r := &runner{c: c, m: m, pool: newPool(vh.Self(), workers, c.N(150, 300))}
+		r.corpus()
 		cfgs := allConfigs()
 		c.Note("configuration space: %d configurations (≤3 producers × ≤3 consumers × ≤1 closer/mixed thread, ≤3 ops each, capacity 0..4), processed in order of weight (atomic steps)", len(cfgs))
-		budgetAll := c.N(500_000, 8_000_000)   // schedules forced in the all-maximal-schedules phase
-		budgetEdges := c.N(300_000, 4_000_000)  // paths forced in the every-transition phase
+		budgetAll := c.N(400_000, 8_000_000)   // schedules forced in the all-maximal-schedules phase
+		budgetEdges := c.N(250_000, 4_000_000)  // paths forced in the every-transition phase
 		perCfgAll := c.N(6_000, 100_000)
 		perCfgEdges := c.N(6_000, 100_000)
 		usedAll, usedEdges := 0, 0
@@ -453,6 +534,9 @@ func Run(c *vh.Ctx) {
 		allOK := true
 		var later []config
 		for _, cfg := range cfgs {
+			if r.stopped() {
+				break
+			}
 			if usedAll >= budgetAll {
 				later = append(later, cfg)
 				continue
@@ -473,9 +557,10 @@ func Run(c *vh.Ctx) {
 				maxAllW = cfg.Weight
 			}
 			r.submit(cfg, scheds, "all")
+			r.probes(cfg, perCfgAll)
 		}
 		for _, cfg := range later {
-			if !allOK {
+			if !allOK || r.stopped() {
 				break
 			}
 			if usedEdges >= budgetEdges {
@@ -498,11 +583,13 @@ func Run(c *vh.Ctx) {
 				maxEdgesW = cfg.Weight
 			}
 			r.submit(cfg, scheds, "edges")
+			r.probes(cfg, perCfgEdges)
 		}
 		// seeded random maximal schedules over the whole space, biased to the large configurations
 		nWalkCfg := c.N(300, 5000)
 		walks := c.N(150, 300)
-		for i := 0; i < nWalkCfg && allOK; i++ {
+		walkDone := 0
+		for i := 0; i < nWalkCfg && allOK && !r.stopped(); i++ {
 			cfg := cfgs[len(cfgs)-1-c.Rand.Intn(len(cfgs)*2/3)]
 			scheds, _, err := r.ask(fmt.Sprintf("walk\t%d\t%s\t%d\t%d", cfg.Cap, cfg.progs(), c.Rand.U64()%1_000_000_007, walks))
 			if err != nil {
@@ -510,13 +597,15 @@ func Run(c *vh.Ctx) {
 				break
 			}
 			r.submit(cfg, scheds, "walk")
+			walkDone++
 		}
 		close(r.pool.jobs)
 		r.drain(true)
 		r.pool.wg.Wait()
+		r.flush()
 		c.Res.ModelLines = m.Lines
 		c.Res.Exhaustive = nAll > 0
-		c.Res.ExhaustiveWhat = fmt.Sprintf("every maximal schedule of %d configurations (all of weight ≤ %d atomic steps that have ≤ %d schedules; %d schedules); every transition of the reachable state graph of %d further configurations (weight ≤ %d; %d paths); %d configurations only by seeded random schedules", nAll, maxAllW, perCfgAll, usedAll, nEdges, maxEdgesW, usedEdges, nSkipped)
+		c.Res.ExhaustiveWhat = fmt.Sprintf("configurations taken in order of weight (atomic steps): every maximal schedule of %d configurations (weight ≤ %d, those with ≤ %d schedules each; %d schedules); every transition of the reachable state graph of %d further configurations (weight ≤ %d; %d paths); the remaining %d configurations are not enumerated, %d of them sampled by %d seeded random maximal schedules each", nAll, maxAllW, perCfgAll, usedAll, nEdges, maxEdgesW, usedEdges, len(cfgs)-nAll-nEdges, walkDone, walks)
 		c.Note("%s", c.Res.ExhaustiveWhat)
 	}
 	runStress(c)
@@ -697,5 +786,6 @@ func replay(c *vh.Ctx) {
 		close(r.pool.jobs)
 		r.drain(true)
 		r.pool.wg.Wait()
+		r.flush()
 	}
 }
